@@ -797,3 +797,514 @@ def check_C13(ctx):
 
 def mask_ranks(m):
     return "".join(oracle.RANK_CHARS[i] for i in range(12, -1, -1) if m >> i & 1)
+
+
+# -------------------------------------------------------------------------------------------------
+# best-of loop of Six / Seven (C02, C03, C09)
+
+def perm_table_name(path):
+    return path + "::FIVE_CARD_PERMUTATIONS"
+
+
+def bestof_loop(ctx, path, n, rule):
+    """Transformer-level analysis of the candidate loop in hand_rank_value_and_hand of Six/Seven.
+    Returns a dict of facts or None (violations already reported)."""
+    rep, pdb = ctx.rep, ctx.pdb
+    key, sty = ctx.method(path, "hand_rank_value_and_hand", HR)
+    k5v, _ = ctx.method(FIVE, "hand_rank_value", HR)
+    where = pdb.where(key)
+    ex = Exec(pdb, contracts={FIP: fip_contract}, opaque={k5v})
+    rep.fn(key)
+    cfg = ex.cfg(key)
+    if len(cfg.loops) != 1:
+        rep.ob(rule + ".loop-shape", short(path), False, "expected exactly one loop over the combination table, found %d" % len(cfg.loops), where)
+        return None
+    h = next(iter(cfg.loops))
+    hand = ctx.hand(path, n)
+    st = State()
+    href = ex.new_tmp(st, hand)
+    st, fid = ex.enter(key, [href], st)
+    pre = ex.run_segment(key, 0, st, fid, {h})
+    if set(pre) != {h} or pre[h][0]:
+        rep.ob(rule + ".loop-shape", short(path), False, "the function can return before its candidate loop", where)
+        return None
+    st0 = pre[h][1]
+    frame0 = st0.frames[fid]
+    st1 = st0.fork()
+    outs1 = ex.run_segment(key, h, st1, fid, {h})
+    if h not in outs1:
+        rep.ob(rule + ".loop-shape", short(path), False, "the loop body does not come back to its header", where)
+        return None
+    frame1 = outs1[h][1].frames[fid]
+    carried = [l for l in sorted(frame0) if l in frame1 and frame1[l] is not frame0[l]]
+    iters = [l for l in carried if frame0[l][0] == "agg" and frame0[l][1][0] == "model"]
+    if len(iters) != 1 or frame0[iters[0]][1][1] != "ArrayIter":
+        rep.ob(rule + ".loop-shape", short(path), False, "the loop does not iterate over a constant array by value", where)
+        return None
+    l_it = iters[0]
+    it0 = frame0[l_it]
+    table = pdb.const_val(perm_table_name(path))
+    rows = arr_of(it0[2][0])
+    got_rows = [[cval(x) for x in arr_of(r)] for r in rows] if rows else None
+    rep.ob(rule + ".iterates-table", short(path), got_rows == [list(r) for r in table] and cval(it0[2][1]) == 0,
+           "the candidate loop does not iterate over the whole of %s from its first row" % perm_table_name(path).split("cards::")[-1], where)
+    # symbolic header state
+    row = agg(("array",), [atom("p%d" % j, "u8") for j in range(5)])
+
+    def sym_state(rows_):
+        s_ = st0.fork()
+        fr = s_.frames[fid]
+        names = {}
+        for l in carried:
+            v0 = frame0[l]
+            if l == l_it:
+                fr[l] = mk("agg", ("model", "ArrayIter"), (agg(("array",), rows_), C(0, "usize")))
+            elif v0[0] == "c":
+                fr[l] = atom("c%d" % l, v0[2])
+                names[l] = fr[l]
+            elif v0[0] == "agg" and v0[1][0] == "adt" and v0[1][1] == FIVE:
+                fr[l] = agg(("adt", FIVE, 0), (agg(("array",), [atom("b%d_%d" % (l, j), "u32") for j in range(5)]),))
+                names[l] = fr[l]
+        return s_, names
+
+    # exit path: exhausted iterator
+    s_exit, names = sym_state([])
+    outs_e = ex.run_segment(key, h, s_exit, fid, {h})
+    if set(outs_e) != {"ret"} or outs_e["ret"][0]:
+        rep.ob(rule + ".loop-shape", short(path), False, "with the table exhausted the function does not simply return", where)
+        return None
+    retv = outs_e["ret"][1].frames[fid].get(0)
+    if retv[0] != "agg" or len(retv[2]) != 2:
+        rep.ob(rule + ".result", short(path), False, "hand_rank_value_and_hand does not return a (value, hand) pair", where)
+        return None
+    l_best = next((l for l, a in names.items() if a is retv[2][0]), None)
+    rep.ob(rule + ".result-is-running-best", short(path), l_best is not None, "the returned value is not the running best value of the loop", where)
+    # witness: descending sort of the remembered hand
+    l_hand = None
+    wit = arr_of(retv[2][1])
+    for l, a in names.items():
+        if a[0] == "agg" and wit is not None:
+            batoms = [x[1] for x in arr_of(a)]
+            if set(atoms_of(retv[2][1])) == set(batoms):
+                l_hand = l
+    okw = False
+    if l_hand is not None and wit is not None and len(wit) == 5:
+        batoms = [x[1] for x in arr_of(names[l_hand])]
+        okw = True
+        for t in weak_orderings(5):
+            env = {nm: 10 * (r + 1) for nm, r in zip(batoms, t)}
+            got = [cval(evaluate(pdb, x, env)) for x in wit]
+            if got != sorted(env.values(), reverse=True):
+                okw = False
+                break
+        rep.evals(541)
+    rep.ob(rule + ".witness-sorted", short(path), okw, "the reported hand is not the remembered best candidate arranged in descending card order", where)
+    if l_best is None or l_hand is None:
+        return None
+    rep.ob(rule + ".initial-best", short(path), frame0[l_best][0] == "c" and frame0[l_best][1] == 0, "the running best value does not start at 0 (no hand yet)", where)
+    # one generic iteration
+    s_it, names = sym_state([row])
+    n_ob = len(ex.obligations)
+    outs = ex.run_segment(key, h, s_it, fid, {h})
+    body_obs = ex.obligations[n_ob:]
+    early = outs.get("ret")
+    if early is not None:
+        rep.ob(rule + ".no-early-exit", short(path), False,
+               "the candidate loop can be left before the table is exhausted (early return/break under condition %s): later candidates are never ranked" % describe_cond(early[0]), where)
+    else:
+        rep.ob(rule + ".no-early-exit", short(path), True)
+    if h not in outs:
+        return None
+    g_back, st2 = outs[h]
+    fr2 = st2.frames[fid]
+    best2, hand2 = fr2[l_best], fr2[l_hand]
+    calls = [x for x in walk(best2) if x[0] == "call" and x[1] == "fn:" + k5v]
+    calls_h = [x for x in walk(hand2) if x[0] == "call" and x[1] == "fn:" + k5v]
+    ok_one = len({id(x) for x in calls + calls_h}) == 1
+    rep.ob(rule + ".ranks-one-candidate", short(path), ok_one, "an iteration ranks %d distinct candidate hands (must rank exactly the selected one, once)" % len({id(x) for x in calls + calls_h}), where)
+    if not ok_one:
+        return None
+    X = calls[0]
+    cand = X[2][0]
+    rep.ob(rule + ".candidate-is-five", short(path), cand[0] == "agg" and cand[1] == ("adt", FIVE, 0), "the ranked candidate is not a five-card hand", where)
+    other_atoms = set(atoms_of(best2)) - {names[l_best][1]} - set(atoms_of(cand))
+    # decision table over the order types of (best so far, candidate value)
+    batoms = [x[1] for x in arr_of(names[l_hand])]
+    base_env = {"s%d" % i: 100 + i for i in range(n)}
+    base_env.update({"p%d" % j: j for j in range(5)})
+    base_env.update({nm: 200 + j for j, nm in enumerate(batoms)})
+    for l, a in names.items():
+        if a[0] == "atom" and l != l_best:
+            base_env[a[1]] = 0
+    badv = badw = None
+    for bv_ in (0, 5, 9):
+        for xv in (0, 3, 5, 7, 9, 12):
+            env = dict(base_env)
+            env[names[l_best][1]] = bv_
+            env["$fn:" + k5v] = (lambda a, xv=xv: C(xv, "u16"))
+            env["$contract:find_in_products"] = lambda k: C(0, "usize")
+            gotv = cval(evaluate(pdb, best2, env))
+            if bv_ == 0:
+                expv = xv
+            else:
+                expv = xv if (xv != 0 and xv < bv_) else bv_
+            if gotv != expv:
+                badv = badv or (bv_, xv, gotv, expv)
+            goth = [cval(x) for x in arr_of(evaluate(pdb, hand2, env))]
+            cand_v = [cval(x) for x in arr_of(evaluate(pdb, cand, env))]
+            old_v = [200 + j for j in range(5)]
+            if expv == xv and xv != bv_:
+                if goth != cand_v:
+                    badw = badw or (bv_, xv, "kept the old hand although the candidate set the new best value")
+            elif expv == bv_ and xv != bv_:
+                if goth != old_v:
+                    badw = badw or (bv_, xv, "replaced the remembered hand although the best value did not change")
+            else:
+                if goth not in (cand_v, old_v):
+                    badw = badw or (bv_, xv, "remembered hand is neither the candidate nor the previous best")
+    rep.evals(36)
+    rep.ob(rule + ".keeps-smallest-nonzero", short(path), badv is None,
+           "with best so far %s and candidate value %s the loop keeps %s, the smallest non-zero value is %s" % (badv or (0, 0, 0, 0)), where)
+    rep.ob(rule + ".witness-follows-value", short(path), badw is None, "with best so far %s and candidate value %s: %s" % (badw or (0, 0, "")), where)
+    # candidate slots come from the selected row of the receiver
+    cs = arr_of(cand)
+    okp = cs is not None and len(cs) == 5
+    if okp:
+        for rowv in ([0, 1, 2, 3, 4], [n - 5 + j for j in range(5)], [0, 2, 3, n - 2, n - 1]):
+            env = dict(base_env)
+            env.update({"p%d" % j: rowv[j] for j in range(5)})
+            got = [cval(evaluate(pdb, x, env)) for x in cs]
+            okp = okp and got == [100 + r for r in rowv]
+    rep.ob(rule + ".candidate-from-row", short(path), okp, "the ranked candidate is not made of the receiver's slots named by the current table row", where)
+    for o in body_obs:
+        pass
+    rep.sample({"rule": rule, "container": short(path), "loop_header_block": h, "carried_locals": carried,
+                "decision_table_cases": 18, "callee": k5v})
+    return dict(key=key, callee=k5v, body_obs=body_obs, l_best=l_best, l_hand=l_hand, ex=ex)
+
+
+def describe_cond(g):
+    return "(%d conjunct(s) on the candidate/best values)" % len(g)
+
+
+def check_bestof(ctx, rule, sizes=((SIX, 6), (SEVEN, 7))):
+    facts = {}
+    for path, n in sizes:
+        def one(path=path, n=n):
+            check_comb_table(ctx, rule + ".table", perm_table_name(path), n, 5, "src/cards/%s.rs" % short(path).lower(), ordered=False)
+            facts[path] = bestof_loop(ctx, path, n, rule)
+            check_selection(ctx, rule + ".selection", path, n)
+        ctx.guard(rule + "." + short(path), one)
+    return facts
+
+
+def check_C02(ctx):
+    rep = ctx.rep
+    premise_layout(ctx)
+    check_bestof(ctx, "C02")
+    # candidates are ranked by the five-card evaluation of C01
+    tabs = ctx.guard("T", premise_tables, ctx)
+    premise_search(ctx, "S", want_gap=False)
+    fac = ctx.guard("F", premise_factor, ctx)
+    if fac and tabs:
+        ctx.guard("R", premise_residual, ctx, fac, tabs[2])
+    premise_entry(ctx, "E", sizes=((FIVE, 5), (SIX, 6), (SEVEN, 7)))
+
+
+def check_C09(ctx):
+    rep, pdb = ctx.rep, ctx.pdb
+    facts = check_bestof(ctx, "C09")
+    a, b = facts.get(SIX), facts.get(SEVEN)
+    if a and b:
+        rep.ob("C09.same-ranking", "Six/Seven", a["callee"] == b["callee"], "Six and Seven rank their candidates with different functions", "")
+    # the five-card value is slot-symmetric (so a sub-hand's value does not depend on who selected it)
+    fac = ctx.guard("F", premise_factor, ctx)
+    premise_entry(ctx, "E", sizes=((FIVE, 5), (SIX, 6), (SEVEN, 7)))
+
+
+def check_C03(ctx):
+    rep, pdb = ctx.rep, ctx.pdb
+    check_bestof(ctx, "C03")
+    fac = ctx.guard("F", premise_factor, ctx)
+    if fac:
+        rep.ob("C03.five-identity", "Five", fac["witness"] is fac["hand"], "five-card ranking does not report the input hand unchanged: %s" % describe_slots(arr_of(fac["witness"]) if fac["witness"][0] == "agg" else None), pdb.where(fac["key"]))
+    # the sorted witness is a Five sort: descending rearrangement (shared with C11)
+    def fsort():
+        k_cp, sty = ctx.method(FIVE, "sort", HV)
+        h = ctx.hand(FIVE, 5)
+        out = ctx.summ(k_cp, [("r", h)], sty).ret
+        names = ["s%d" % i for i in range(5)]
+        ok, why = comparison_only(out, set(names))
+        if not ok:
+            rep.uncertified("C03.five-sort", why, pdb.where(k_cp))
+            return
+        bad = 0
+        for t in weak_orderings(5):
+            env = {nm: 10 * (r + 1) for nm, r in zip(names, t)}
+            got = [cval(x) for x in arr_of(ctx.fold(out, env))]
+            bad += 0 if got == sorted(env.values(), reverse=True) else 1
+        rep.ob("C03.five-sort", "541 order patterns", bad == 0, "Five::sort is not the descending rearrangement on %d order patterns" % bad, pdb.where(k_cp))
+    ctx.guard("C03.five-sort", fsort)
+
+
+# -------------------------------------------------------------------------------------------------
+# C04
+
+def check_C04(ctx):
+    rep, pdb = ctx.rep, ctx.pdb
+    premise_layout(ctx)
+    cards = ctx.guard("L.constants", ctx.card_consts)
+    if cards is None:
+        return
+    words = list(cards.values())
+
+    def filt():
+        key, sty = ctx.method("u32", "filter", PC)
+        check_filter_cells(ctx, "V.filter", key, sty, words)
+        k2 = pdb.inherent("CardNumber", "filter")
+        check_filter_cells(ctx, "V.filter(CardNumber)", k2, None, words)
+    ctx.guard("V.filter", filt)
+
+    kfilter = pdb.inherent("CardNumber", "filter")
+    kpf, _ = ctx.method("u32", "filter", PC)
+    cnt = 0
+    for path, n in CONTAINERS:
+        h = ctx.hand(path, n)
+        def corrupt(path=path, n=n, h=h):
+            key, sty = ctx.method(path, "is_corrupt", HV)
+            sm = ctx.summ(key, [("r", h)], sty, opaque={kfilter, kpf})
+            leaves = []
+            flat_or(sm.ret, leaves)
+            slots = []
+            ok = True
+            for l in leaves:
+                hit = None
+                if l[0] == "bin" and l[1] == "Eq":
+                    for a_, b_ in ((l[2], l[3]), (l[3], l[2])):
+                        if a_[0] == "call" and a_[1] in ("fn:" + kfilter, "fn:" + kpf) and a_[2][0][0] == "atom" and b_[0] == "c" and b_[1] == 0:
+                            hit = a_[2][0][1]
+                if hit is None:
+                    ok = False
+                else:
+                    slots.append(hit)
+            rep.ob("V.is_corrupt", short(path), ok and sorted(slots) == ["s%d" % i for i in range(n)], "is_corrupt is not `some slot is mapped to BLANK by the card filter` over exactly the %d slots (slots tested: %s)" % (n, sorted(slots)), pdb.where(key))
+            key, sty = ctx.method(path, "contain_blank", HV)
+            r = ctx.summ(key, [("r", h)], sty).ret
+            bad = 0
+            for blank_at in [None] + list(range(n)):
+                env = {"s%d" % i: (0 if i == blank_at else 7 + i) for i in range(n)}
+                bad += 0 if cval(ctx.fold(r, env)) == (0 if blank_at is None else 1) else 1
+            rep.ob("V.contain_blank", short(path), bad == 0 and comparison_only(r, {"s%d" % i for i in range(n)})[0], "contain_blank is not `some slot equals BLANK`", pdb.where(key))
+        ctx.guard("V.is_corrupt." + short(path), corrupt)
+        def valid(path=path, n=n, h=h):
+            key, sty = ctx.method(path, "is_valid", HV)
+            ku, _ = ctx.method(path, "are_unique", HV)
+            kc, _ = ctx.method(path, "is_corrupt", HV)
+            sm = ctx.summ(key, [("r", h)], sty, opaque={ku, kc})
+            tt = {}
+            for u in (0, 1):
+                for c in (0, 1):
+                    env = {"$fn:" + ku: (lambda a, u=u: C(u, "bool")), "$fn:" + kc: (lambda a, c=c: C(c, "bool"))}
+                    try:
+                        tt[(u, c)] = cval(evaluate(pdb, sm.ret, env))
+                    except Uncertified:
+                        tt[(u, c)] = None
+            rep.ob("V.is_valid", short(path), tt == {(0, 0): 0, (0, 1): 0, (1, 0): 1, (1, 1): 0}, "is_valid is not `unique and not corrupt`: truth table over (unique, corrupt) = %s" % tt, pdb.where(key))
+            for x in walk(sm.ret):
+                if x[0] == "call" and x[1].startswith("fn:"):
+                    rep.ob("V.is_valid-arg", "%s %s" % (short(path), x[1].split("::")[-1]), x[2][0] is h, "is_valid tests a different hand than its receiver", pdb.where(key))
+        ctx.guard("V.is_valid." + short(path), valid)
+        ctx.guard("V.are_unique." + short(path), premise_unique, ctx, path, n, "V.are_unique")
+        cnt += 1
+    rep.floor("V.containers", cnt, 6)
+    # the gate, for the three ranked sizes and the free function
+    premise_entry(ctx, "E", sizes=((FIVE, 5), (SIX, 6), (SEVEN, 7)))
+    # never panics: the invalid edge returns the constant 0 (gate) and validity itself has no reachable panic site
+    def nopanic():
+        for path, n in ((FIVE, 5), (SIX, 6), (SEVEN, 7)):
+            key, sty = ctx.method(path, "is_valid", HV)
+            sm = ctx.summ(key, [("r", ctx.hand(path, n))], sty)
+            for o in sm.obligations:
+                if o.fn.endswith("::filter") or "are_unique" in o.fn:
+                    continue
+                rep.ob("V.no-panic", "%s %s L%s" % (short(o.fn), o.kind, o.line), o.cond[0] == "c" and bool(o.cond[1]), "panic site on the validity path is not trivially safe", pdb.where(o.fn))
+    ctx.guard("V.no-panic", nopanic)
+    # on the valid edge the hand is made of distinct real cards: ranking returns (and is non-zero) by C01's premises
+    tabs = ctx.guard("T", premise_tables, ctx)
+    premise_search(ctx, "S", want_gap=False)
+    fac = ctx.guard("F", premise_factor, ctx)
+    if fac and tabs:
+        discharge_residual_obligations(ctx, fac, "V.valid-edge-panic-site", max_ranks=5, PR=tabs[2])
+        ctx.guard("R", premise_residual, ctx, fac, tabs[2])
+    facts = check_bestof(ctx, "V.bestof")
+
+
+def flat_or(x, out):
+    if x[0] == "bin" and x[1] == "BitOr" and x[4] == "bool":
+        flat_or(x[2], out)
+        flat_or(x[3], out)
+    else:
+        out.append(x)
+
+
+# -------------------------------------------------------------------------------------------------
+# C05
+
+def check_C05(ctx):
+    rep, pdb = ctx.rep, ctx.pdb
+    premise_layout(ctx)
+    # every slot is one of the 53 constants: at most one rank bit, flag bits clear (derived, not assumed)
+    def slotfacts():
+        ws = ctx.words53()
+        rep.ob("C05.slot-abstraction", "one rank bit", all(bin((w >> 16) & 0x1FFF).count("1") <= 1 for w in ws), "a card constant has more than one rank bit")
+        rep.ob("C05.slot-abstraction", "no bits above the rank field", all(w >> 29 == 0 for w in ws), "a card constant has bits above the rank field")
+        rep.ob("C05.slot-abstraction", "6-bit prime field", all((w & 0xFF) < 64 for w in ws), "a card constant has a prime field above 63")
+    ctx.guard("C05.slot-abstraction", slotfacts)
+    tabs = ctx.guard("T", premise_tables, ctx)
+    res = premise_search(ctx, "S", want_gap=True)
+    fac = ctx.guard("F", premise_factor, ctx)
+    PR = tabs[2] if tabs else None
+    if fac:
+        n = discharge_residual_obligations(ctx, fac, "C05.panic-site.five", max_ranks=5, PR=PR)
+        rep.floor("C05.panic-site.five", n, 4)
+        # a blank five ranks 0: at most four rank bits, no flush (a zero word clears the AND), product 0
+        def blank():
+            if fac["slots_left"] or PR is None:
+                return
+            h = fip_handler(PR)
+            bad = None
+            for m in masks_upto(4):
+                try:
+                    got = cval(ctx.fold(fac["resid"], {"M": m, "F": 0, "P": 0, "$contract:find_in_products": h}))
+                except IndexError as e:
+                    got = "panic(%s)" % e
+                if got != 0:
+                    bad = bad or (m, got)
+            rep.ob("C05.blank-five-is-zero", "1093 rank masks", bad is None, "a five-slot hand holding a blank with rank mask %#x gets value %s instead of 0" % (bad or (0, 0)), pdb.where(fac["key"]))
+            # flush flag is false as soon as one slot is zero
+            fz = fac["fz"]
+            fb = BitVec(pdb, atom_bits={"s0": [0] * 32}).bv
+            kf = pdb.inherent(FIVE, "is_flush")
+            r = ctx.summ(kf, [("r", ctx.hand(FIVE, 5))]).ret
+            for z in range(5):
+                bits = BitVec(pdb, atom_bits={"s%d" % z: [0] * 32}).bv(r)
+                rep.ob("C05.blank-never-flush", "blank in slot %d" % z, bits[0] == 0, "is_flush can be true with a blank in slot %d" % z, pdb.where(kf))
+            kn = pdb.inherent("hand_rank::HandRank", "determine_name")
+            nm = ctx.summ(kn, [("r", C(0, "u16"))]).ret
+            rep.ob("C05.zero-is-invalid", "name(0)", enum_name(pdb, nm) == "Invalid", "the rank of value 0 is named %s" % enum_name(pdb, nm), pdb.where(kn))
+        ctx.guard("C05.blank", blank)
+    # Six / Seven: their own panic sites, with the five-card ranking cited compositionally
+    facts = check_bestof(ctx, "C05.bestof")
+    for path, n in ((SIX, 6), (SEVEN, 7)):
+        def own(path=path, n=n):
+            key, sty = ctx.method(path, "hand_rank_value_and_hand", HR)
+            k5v, _ = ctx.method(FIVE, "hand_rank_value", HR)
+            sm = ctx.summ(key, [("r", ctx.hand(path, n))], sty, opaque={k5v})
+            cnt = 0
+            for o in sm.obligations:
+                cnt += 1
+                rep.ob("C05.panic-site." + short(path).lower(), "%s %s L%s" % (short(o.fn), o.kind, o.line), o.cond[0] == "c" and bool(o.cond[1]),
+                       "panic site %s in %s is not discharged (index taken from the table out of range?)" % (o.kind, short(o.fn)), "%s line %s" % (pdb.where(o.fn), o.line))
+            rep.floor("C05.panic-site." + short(path).lower(), cnt, 5)
+            # every ranked candidate is made of slots of the receiver (so it is again card-or-blank)
+            slots = {"s%d" % i for i in range(n)}
+            for x in walk(sm.ret):
+                if x[0] == "call" and x[1] == "fn:" + k5v:
+                    cs = arr_of(x[2][0])
+                    rep.ob("C05.candidate-slots", short(path), cs is not None and all(c[0] == "atom" and c[1] in slots for c in cs), "a ranked candidate contains something other than copies of the receiver's slots", pdb.where(key), nontrivial=False)
+        ctx.guard("C05.own." + short(path), own)
+    # remaining entry points: wiring only adds conversions without panic sites
+    def entries():
+        for path, n in ((FIVE, 5), (SIX, 6), (SEVEN, 7)):
+            for meth in ("hand_rank", "hand_rank_validated", "hand_rank_value", "hand_rank_value_validated"):
+                key, sty = ctx.method(path, meth, HR)
+                k_and, _ = ctx.method(path, "hand_rank_value_and_hand", HR)
+                sm = ctx.summ(key, [("r", ctx.hand(path, n))], sty, opaque={k_and})
+                for o in sm.obligations:
+                    if "are_unique" in o.fn:
+                        continue
+                    rep.ob("C05.panic-site.entry", "%s::%s %s %s L%s" % (short(path), meth, short(o.fn), o.kind, o.line), o.cond[0] == "c" and bool(o.cond[1]), "panic site %s in %s" % (o.kind, short(o.fn)), pdb.where(o.fn))
+            ctx.guard("V.are_unique." + short(path), premise_unique, ctx, path, n, "C05.are_unique")
+    ctx.guard("C05.entries", entries)
+    # build profile without overflow checks
+    if ctx.tier == "thorough" and ctx.pdb_unchecked is not None:
+        pu = ctx.pdb_unchecked
+        def unchecked():
+            premise_search(ctx, "S", want_gap=True, pdb=pu, label="(overflow-checks=off)")
+            # same functions, same shape: only overflow asserts may differ
+            diff = []
+            for k in pdb.fns:
+                if k not in pu.fns:
+                    diff.append(k)
+                    continue
+                a = [b["term"]["k"] for b in pdb.fns[k]["mir"]["blocks"] if not (b["term"]["k"] == "assert" and b["term"]["kind"].startswith("Overflow"))]
+                b_ = [b["term"]["k"] for b in pu.fns[k]["mir"]["blocks"] if not (b["term"]["k"] == "assert" and b["term"]["kind"].startswith("Overflow"))]
+                if a != b_:
+                    diff.append(k)
+            rep.ob("C05.profiles", "MIR differs only by overflow asserts", not diff, "functions whose control flow differs between the profiles: %s" % diff[:3])
+        ctx.guard("C05.unchecked", unchecked)
+    else:
+        rep.assumptions.append("quick tier: the profile without overflow checks is covered by the argument that no overflow assert can fail (so wrapping and checked arithmetic coincide); the thorough tier re-runs the search analysis on the -C overflow-checks=off MIR")
+
+
+# -------------------------------------------------------------------------------------------------
+# C08
+
+def check_C08(ctx):
+    rep, pdb = ctx.rep, ctx.pdb
+    premise_layout(ctx)
+    im = pdb.trait_impl("Shifty", "u32")
+    if im is None:
+        rep.uncertified("C08.card-shift", "no impl Shifty for u32")
+        return
+    kshift = im["items"]["shift_suit"]
+
+    def card():
+        w = atom("w", "u32")
+        dag = ctx.summ(kshift, [("r", w)]).ret
+        nxt = {3: 2, 2: 1, 1: 0, 0: 3}
+        for (r, s_) in oracle.deck_order():
+            got = cval(ctx.fold(dag, {"w": oracle.card_word(r, s_)}))
+            exp = oracle.card_word(r, nxt[s_])
+            rep.ob("C08.card-shift", oracle.card_const_name(r, s_), got == exp, "shift_suit(%s) = %s, expected %s" % (oracle.card_const_name(r, s_), "%#x" % got if got is not None else got, oracle.card_const_name(r, nxt[s_])), pdb.where(kshift))
+        rep.ob("C08.card-shift", "BLANK", cval(ctx.fold(dag, {"w": 0})) == 0, "shift_suit(BLANK) is not BLANK", pdb.where(kshift))
+        rep.floor("C08.card-shift", 53, 53)
+    ctx.guard("C08.card-shift", card)
+
+    cnt = 0
+    for path, n in CONTAINERS:
+        def cont(path=path, n=n):
+            im2 = pdb.trait_impl("Shifty", path)
+            if im2 is None:
+                rep.ob("C08.slotwise", short(path), False, "no impl Shifty for %s" % short(path))
+                return
+            key = im2["items"]["shift_suit"]
+            h = ctx.hand(path, n)
+            sm = ctx.summ(key, [("r", h)], None, opaque={kshift})
+            got = arr_of(sm.ret)
+            ok = got is not None and len(got) == n
+            desc = []
+            if ok:
+                for i, g in enumerate(got):
+                    good = g[0] == "call" and g[1] == "fn:" + kshift and g[2][0] is atom("s%d" % i, "u32")
+                    ok = ok and good
+                    desc.append("shift(%s)" % ",".join(atoms_of(g)) if g[0] == "call" else g[0] + "(" + ",".join(atoms_of(g)) + ")")
+            rep.ob("C08.slotwise", short(path), ok, "shift_suit of %s gives slots %s; slot i must be the shifted card of input slot i" % (short(path), desc), pdb.where(key))
+        ctx.guard("C08.slotwise." + short(path), cont)
+        cnt += n
+    rep.floor("C08.slotwise", cnt, 27)
+
+    # value invariance: suits reach the five-card value only through the all-same-suit test, which treats the four
+    # suit bits alike; six/seven select by slot index and minimise over values
+    fac = ctx.guard("F", premise_factor, ctx)
+    if fac:
+        fz = fac["fz"]
+        fb = fz.f_bit()
+        sym = True
+        import itertools
+        for perm in itertools.permutations((12, 13, 14, 15)):
+            mp = dict(zip((12, 13, 14, 15), perm))
+            img = b_or([b_and([("b", s_, mp[k]) for s_ in fz.slots]) for k in (12, 13, 14, 15)])
+            sym = sym and img == fb
+        rep.ob("C08.suit-blind", "24 relabellings", sym and not fac["slots_left"] and fz.found["F"] > 0, "the five-card value depends on suits other than through a test that is symmetric in the four suit bits", pdb.where(fac["key"]))
+    check_bestof(ctx, "C08.bestof")
